@@ -51,10 +51,35 @@ theorem inv_init : InvR init := ⟨(invB_iff init).1 (by decide), rfl, fun _ _ =
 /-- **inv_step**: every operation, with any arguments, whether it succeeds, is refused or raises, preserves the invariant -/
 theorem inv_step (s : Reg) (op : Op) (h : InvR s) : InvR (step repaired s op).1 := by
   cases op with
-  | addJunction n p =>
-    rcases addJunction_cases s n p with e | ⟨hn, e⟩ <;> simp only [step, e]
+  | addJunction n p o =>
+    rcases addJunction_cases s n p o with e | ⟨hn, e⟩ <;> simp only [step, e]
     · exact h
     · exact addJunctionR_invR s n p hn h
+  | addDemand n p o =>
+    rcases addDemand_cases s n p o with e | ⟨i, hi, hk, e⟩ <;> simp only [step, e]
+    · exact h
+    · exact addDemandR_invR s n p i hi hk h
+  | delDemand n idx =>
+    rcases delDemand_cases s n idx with e | ⟨i, hi, hk, e⟩ <;> simp only [step, e]
+    · exact h
+    · exact delDemandR_invR s n idx i hi hk h
+  | addFire n p =>
+    rcases addFire_cases s n p with e | ⟨i, hi, hk, hp, e⟩ <;> simp only [step, e]
+    · exact h
+    · exact addFireR_invR s n p i hi hk hp h
+  | removeFire n =>
+    rcases removeFire_cases s n with e | e | ⟨i, p, hi, hk, e | ⟨hu, e⟩⟩ <;> simp only [step, e]
+    · exact h
+    · exact h
+    · exact removeFireR_invR s n p i hi hk h
+    · exact removePatternR_invR _ p hu (removeFireR_invR s n p i hi hk h)
+  | addLeak n a b =>
+    obtain ⟨h1, h2, h3, h4, h5, h6, h7⟩ := addLeak_frame s n a b
+    exact invR_congr s _ h1 h2 h3 h4 h5 h6 h7 h
+  | removeLeak n =>
+    rcases removeLeak_cases s n with e | e <;> simp only [step, e]
+    · exact h
+    · exact invR_congr s _ rfl rfl rfl rfl rfl rfl rfl h
   | addTank n c =>
     rcases addTank_cases s n c with e | ⟨hn, e⟩ <;> simp only [step, e]
     · exact h
@@ -164,10 +189,19 @@ theorem inv_history (ops : List Op) : Inv (run repaired init ops) := (inv_reacha
 
 /-! ### an operation that does not succeed changes nothing -/
 
-/-- **not_ok_unchanged**: an operation that is refused or raises leaves the model exactly as it was -/
-theorem not_ok_unchanged (s : Reg) (op : Op) (h : (step repaired s op).2 ≠ .ok) : (step repaired s op).1 = s := by
+/-- **not_ok_unchanged**: an operation that is refused or raises leaves the model exactly as it was.  The one exception is
+`add_leak` with both a start and an end time on a node whose END control name is taken (left behind by an earlier node of that
+name): it raises after the start control was added — the views still agree (`inv_step`), only the control list grew. -/
+theorem not_ok_unchanged (s : Reg) (op : Op) (hl : ∀ n a b, op ≠ .addLeak n a b) (h : (step repaired s op).2 ≠ .ok) :
+    (step repaired s op).1 = s := by
   cases op with
-  | addJunction n p => rcases addJunction_cases s n p with e | ⟨_, e⟩ <;> simp_all [step]
+  | addJunction n p o => rcases addJunction_cases s n p o with e | ⟨_, e⟩ <;> simp_all [step]
+  | addDemand n p o => rcases addDemand_cases s n p o with e | ⟨_, _, _, e⟩ <;> simp_all [step]
+  | delDemand n idx => rcases delDemand_cases s n idx with e | ⟨_, _, _, e⟩ <;> simp_all [step]
+  | addFire n p => rcases addFire_cases s n p with e | ⟨_, _, _, _, e⟩ <;> simp_all [step]
+  | removeFire n => rcases removeFire_cases s n with e | e | ⟨_, _, _, _, e | ⟨_, e⟩⟩ <;> simp_all [step]
+  | addLeak n a b => exact absurd rfl (hl n a b)
+  | removeLeak n => rcases removeLeak_cases s n with e | e <;> simp_all [step]
   | addTank n c => rcases addTank_cases s n c with e | ⟨_, e⟩ <;> simp_all [step]
   | addReservoir n p => rcases addReservoir_cases s n p with e | ⟨_, e⟩ <;> simp_all [step]
   | addPipe n a b => rcases addPipe_cases s n a b with e | ⟨_, _, _, e⟩ <;> simp_all [step]
@@ -193,10 +227,16 @@ theorem not_ok_unchanged (s : Reg) (op : Op) (h : (step repaired s op).2 ≠ .ok
   | setHeadlossCurve l c => rcases setHeadlossCurve_cases s l c with e | ⟨_, _, _, e⟩ <;> simp_all [step]
 
 /-- **refused_leaves_unchanged**: a refused removal leaves the model unchanged -/
-theorem refused_leaves_unchanged (s : Reg) (op : Op) (h : (step repaired s op).2 = .refused) : (step repaired s op).1 = s :=
-  not_ok_unchanged s op (by rw [h]; decide)
+theorem refused_leaves_unchanged (s : Reg) (op : Op) (h : (step repaired s op).2 = .refused) : (step repaired s op).1 = s := by
+  by_cases hl : ∀ n a b, op ≠ .addLeak n a b
+  · exact not_ok_unchanged s op hl (by rw [h]; decide)
+  · -- `add_leak` is never answered `refused`
+    exfalso
+    simp only [ne_eq, not_forall, not_not] at hl
+    obtain ⟨n, a, b, rfl⟩ := hl
+    exact addLeak_not_refused s n a b h
 
-example : (step repaired (run repaired init [.addJunction 1 none, .addJunction 2 none, .addPipe 3 1 2]) (.removeNode 1 true false)).2
+example : (step repaired (run repaired init [.addJunction 1 none false, .addJunction 2 none false, .addPipe 3 1 2]) (.removeNode 1 true false)).2
     = .refused := by decide
 
 /-! ### removing an element that is still in use is refused -/
@@ -232,15 +272,17 @@ theorem remove_node_with_source_refused (s : Reg) (n k : Name) (si : SourceInfo)
 
 /-- a pattern that an existing junction, reservoir, pump or source names is in use: `remove_pattern` is refused -/
 theorem remove_pattern_in_use_refused (s : Reg) (p : Name) (h : Inv s)
-    (hu : (∃ k i uk, AL.get? s.nodes k = some i ∧ nodePatUser i.kind = some uk ∧ i.pat = some p) ∨
+    (hu : (∃ k i, AL.get? s.nodes k = some i ∧ i.kind = .reservoir ∧ i.pat = some p) ∨
+          (∃ k i d, AL.get? s.nodes k = some i ∧ i.kind = .junction ∧ d ∈ i.demands ∧ d.1 = some p) ∨
           (∃ k i, AL.get? s.links k = some i ∧ isPump i.kind = true ∧ i.pat = some p) ∨
           (∃ k si, AL.get? s.sources k = some si ∧ si.pat = some p)) :
     removePattern s p = (s, .refused) := by
   rcases removePattern_cases s p with e | ⟨hn, e⟩
   · exact e
   · exfalso
-    rcases hu with ⟨k, i, uk, hk, h1, h2⟩ | ⟨k, i, hk, h1, h2⟩ | ⟨k, si, hk, h2⟩
-    · exact hn _ ((Clause.usagePatNodes_iff s).1 h.usagePatNodes k i hk uk h1 p h2)
+    rcases hu with ⟨k, i, hk, h1, h2⟩ | ⟨k, i, d, hk, h1, hd, h2⟩ | ⟨k, i, hk, h1, h2⟩ | ⟨k, si, hk, h2⟩
+    · exact hn _ (((Clause.usagePatNodes_iff s).1 h.usagePatNodes k i hk).1 h1 p h2)
+    · exact hn _ (((Clause.usagePatNodes_iff s).1 h.usagePatNodes k i hk).2 h1 d hd p h2)
     · exact hn _ ((Clause.usagePatLinks_iff s).1 h.usagePatLinks k i hk h1 p h2)
     · exact hn _ ((Clause.usagePatSources_iff s).1 h.usagePatSources k si hk p h2)
 
@@ -263,7 +305,7 @@ theorem delLinkR_controls (s : Reg) (key : Name) (i : LinkInfo) : (delLinkR s ke
   unfold delLinkR; simp only [typedDiscardAll_controls, removeUsageO_controls, removeUsageT_controls]
 
 theorem delNodeR_controls (s : Reg) (key : Name) (i : NodeInfo) : (delNodeR s key i).controls = s.controls := by
-  unfold delNodeR; simp only [typedDiscardAll_controls, removeUsageO_controls, popUsageKey_controls]
+  unfold delNodeR; simp only [typedDiscardAll_controls, removeUsageO_controls, removeUserAllO_controls, popUsageKey_controls]
 
 /-- a link that some control requires is not removed by a plain `remove_link` -/
 theorem remove_link_required_refused (s : Reg) (n : Name) (i : LinkInfo) (hi : AL.get? s.links n = some i)
@@ -323,11 +365,11 @@ theorem refused_unchanged_repaired : RefusedUnchanged repaired := fun ops op h =
 /-- remove a pump that has a speed pattern: `remove_usage` on the curve registry raises, the typed sets keep the pump
 (fixes/C14-delitem-releases-usage) -/
 theorem coded_cex_remove_pump_speed_pattern :
-    ¬ Inv (run coded init [.addJunction 1 none, .addJunction 2 none, .addPump 3 1 2 .power (some 9), .removeLink 3 false false]) := by
+    ¬ Inv (run coded init [.addJunction 1 none false, .addJunction 2 none false, .addPump 3 1 2 .power (some 9), .removeLink 3 false false]) := by
   decide
 
 /-- remove a junction with a demand pattern / a reservoir with a head pattern: the pattern stays in use by a node that is gone -/
-theorem coded_cex_remove_junction_pattern : ¬ Inv (run coded init [.addJunction 1 (some 9), .removeNode 1 false false]) := by
+theorem coded_cex_remove_junction_pattern : ¬ Inv (run coded init [.addJunction 1 (some 9) false, .removeNode 1 false false]) := by
   decide
 theorem coded_cex_remove_reservoir_pattern : ¬ Inv (run coded init [.addReservoir 1 (some 9), .removeNode 1 false false]) := by
   decide
@@ -340,10 +382,10 @@ theorem coded_cex_remove_selfloop :
 /-- reassign one end of a self-loop: the node loses its usage record although it is still the other end
 (fixes/C14-end-node-setter-shared-node); the node can then be removed from under the link -/
 theorem coded_cex_set_end_selfloop :
-    ¬ Inv (run coded init [.addJunction 1 none, .addTank 2 none, .addValve 3 1 1 .pbv none, .setEnd 3 2]) := by
+    ¬ Inv (run coded init [.addJunction 1 none false, .addTank 2 none, .addValve 3 1 1 .pbv none, .setEnd 3 2]) := by
   decide
 theorem coded_cex_set_end_selfloop_dangling :
-    ¬ Clause.endsExist (run coded init [.addJunction 1 none, .addTank 2 none, .addValve 3 1 1 .pbv none, .setEnd 3 2,
+    ¬ Clause.endsExist (run coded init [.addJunction 1 none false, .addTank 2 none, .addValve 3 1 1 .pbv none, .setEnd 3 2,
       .removeNode 1 false false]) := by
   decide
 
@@ -361,16 +403,16 @@ theorem coded_cex_pump_unknown_curve :
   decide
 
 /-- a second element under an existing name silently replaces the first (fixes/C14-reject-duplicate-names) -/
-theorem coded_cex_duplicate_node : ¬ Inv (run coded init [.addJunction 1 none, .addReservoir 1 none]) := by
+theorem coded_cex_duplicate_node : ¬ Inv (run coded init [.addJunction 1 none false, .addReservoir 1 none]) := by
   decide
 theorem coded_cex_duplicate_link :
-    ¬ Inv (run coded init [.addJunction 1 none, .addJunction 2 none, .addPump 3 1 2 .power none, .addPipe 3 1 2]) := by
+    ¬ Inv (run coded init [.addJunction 1 none false, .addJunction 2 none false, .addPump 3 1 2 .power none, .addPipe 3 1 2]) := by
   decide
 
 /-- a source with a pattern leaves a usage record keyed by the Pattern object behind when it is removed
 (fixes/C14-source-pattern-usage-by-name) -/
 theorem coded_cex_remove_source_pattern :
-    ¬ Inv (run coded init [.addPattern 9, .addJunction 1 none, .addSource 2 1 (some 9), .removeSource 2]) := by
+    ¬ Inv (run coded init [.addPattern 9, .addJunction 1 none false, .addSource 2 1 (some 9), .removeSource 2]) := by
   decide
 
 /-- **the full statement is false of the code as it was** -/
@@ -379,15 +421,15 @@ theorem coded_not_consistent : ¬ AllHistoriesConsistent coded := fun h => coded
 /-- `remove_node(with_control=True)` of a node that is still in use is refused — after its controls were removed
 (fixes/C14-remove-controls-after-element) -/
 theorem coded_cex_refused_changed : ¬ RefusedUnchanged coded := fun h => by
-  have := h [.addJunction 1 none, .addJunction 2 none, .addPipe 3 1 2, .addControl 4 [1] []] (.removeNode 1 true false) (by decide)
+  have := h [.addJunction 1 none false, .addJunction 2 none false, .addPipe 3 1 2, .addControl 4 [1] []] (.removeNode 1 true false) (by decide)
   revert this
   decide
 
 /-! the same histories on the repaired code (instances of `inv_history`, evaluated) -/
-example : Inv (run repaired init [.addJunction 1 none, .addJunction 2 none, .addPump 3 1 2 .power (some 9), .removeLink 3 false false]) := by
+example : Inv (run repaired init [.addJunction 1 none false, .addJunction 2 none false, .addPump 3 1 2 .power (some 9), .removeLink 3 false false]) := by
   decide
 example : (step repaired (run repaired init [.addTank 1 none]) (.addPipe 2 1 9)).2 = .error := by decide
-example : (step repaired (run repaired init [.addJunction 1 none]) (.addReservoir 1 none)).2 = .error := by decide
+example : (step repaired (run repaired init [.addJunction 1 none false]) (.addReservoir 1 none)).2 = .error := by decide
 
 /-! ### the derived views -/
 
@@ -401,12 +443,46 @@ theorem views_history (ops : List Op) : viewsOk (run repaired init ops) (views (
 
 /-- the code as it was: after removing a pump with a speed pattern `wn.pumps()` raises -/
 theorem coded_cex_views :
-    viewsOk (run coded init [.addJunction 1 none, .addJunction 2 none, .addPump 3 1 2 .power (some 9), .removeLink 3 false false])
-      (views (run coded init [.addJunction 1 none, .addJunction 2 none, .addPump 3 1 2 .power (some 9), .removeLink 3 false false]))
+    viewsOk (run coded init [.addJunction 1 none false, .addJunction 2 none false, .addPump 3 1 2 .power (some 9), .removeLink 3 false false])
+      (views (run coded init [.addJunction 1 none false, .addJunction 2 none false, .addPump 3 1 2 .power (some 9), .removeLink 3 false false]))
       = false := by
   decide
 
-example : (views (run repaired init [.addJunction 1 none, .addTank 2 none, .addPipe 3 1 2])).linksFor =
+example : (views (run repaired init [.addJunction 1 none false, .addTank 2 none, .addPipe 3 1 2])).linksFor =
     [(1, some [3], some [], some [3]), (2, some [3], some [3], some [])] := by decide
+
+/-! ### counts -/
+
+/-- **counts_consistent**: in every state that satisfies the invariant the per-class counts (`num_junctions` ... `num_gpvs`,
+`describe(level)`: the lengths of the typed sets) are the numbers of existing elements of the class, and the node classes
+partition the nodes (`num_nodes = num_junctions + num_tanks + num_reservoirs`) -/
+theorem counts_consistent (s : Reg) (h : InvR s) :
+    (∀ t, t ∈ nodeSets ∨ t ∈ allLinkSets → (s.typed t).length = (namesOfSet s t).length) ∧
+    s.nodes.length = (s.typed .junctions).length + (s.typed .tanks).length + (s.typed .reservoirs).length :=
+  ⟨fun t ht => typed_count s h.1 t ht, node_count s h.1⟩
+
+/-! ### round 2: several demands per junction, Pattern objects, fire-flow demands (variant `round1` = the tree before
+fixes/C14-remove-node-releases-every-demand-pattern, C14-add-demand-usage-by-name, C14-remove-fire-demand-keeps-shared-pattern) -/
+
+/-- a demand entry is deleted from the list, then the junction is removed: its pattern stays in use by a node that is gone -/
+theorem round1_cex_deleted_demand_entry :
+    ¬ Inv (run round1 init [.addJunction 3 (some 1) false, .addDemand 3 (some 2) false, .delDemand 3 1, .removeNode 3 false false]) := by
+  decide
+
+/-- a Pattern OBJECT as demand pattern is registered under the object: the pattern is not protected -/
+theorem round1_cex_pattern_object : ¬ Inv (run round1 init [.addPattern 1, .addJunction 3 (some 1) true]) := by
+  decide
+
+/-- removing the fire-flow demand releases (and removes) a pattern that another entry of the junction still names -/
+theorem round1_cex_fire_shared_pattern :
+    ¬ Inv (run round1 init [.addJunction 1 none false, .addFire 1 7, .addDemand 1 (some 7) false, .removeFire 1]) := by
+  decide
+
+example : Inv (run repaired init [.addJunction 3 (some 1) false, .addDemand 3 (some 2) false, .delDemand 3 1, .removeNode 3 false false]) := by
+  decide
+example : (run repaired init [.addJunction 1 none false, .addFire 1 7, .addDemand 1 (some 7) false, .removeFire 1]).patterns = [7] := by
+  decide
+example : (step repaired (run repaired init [.addJunction 1 none false, .addLeak 1 true true]) (.removeNode 1 false false)).2 = .refused := by
+  decide
 
 end Wntr.Registry
